@@ -82,6 +82,10 @@ def attrsLen (f : LenFacts) : Nat := 8 + 39 + 15 + 10 + (if f.secure then 8 else
 
 def lineLen (f : LenFacts) (nameLen gob : Nat) : Nat := nameLen + 1 + valueLen f gob + attrsLen f
 
+/-- securecookie's length check in `Encode`: a value longer than the codec's ceiling is not produced (`Save` returns an error
+    and writes no cookie); a ceiling of 0 switches the check off -/
+def fits (ceiling : Nat) (f : LenFacts) (gob : Nat) : Bool := ceiling == 0 || decide (valueLen f gob ≤ ceiling)
+
 /-- the attributes of a Set-Cookie line as net/http prints them for the `sessions.Options` of `getSessionOptions`, in order, without
     the `Expires` attribute (whose value is the date `Max-Age` seconds ahead); `maxAge ≤ 0` is how a cookie is deleted -/
 def attrsOf (secure : Bool) (maxAge : Int) : List String :=
